@@ -1247,6 +1247,7 @@ func main() {
 	c.Rule = "worlds with one XRD (with claim names), 1-2 claims with Background/Foreground/unset delete policy, optionally a directly created XR and a not-yet-bound claim; actors scheduled at API-call granularity by a seeded scheduler: user deletions (claim, XR, XRD with foreground/background propagation, in every order), the real definition and offered reconcilers, the production-wired claim and XR reconcilers they start (gated by engine Start/Stop), the Kubernetes garbage collector (one action per step), a third party stripping finalizers, one injected API error; then sequential settling. Precedence monitors on every trace event: claim finalizer removal => XR delete issued before (XR gone under Foreground); CRD delete => no instance exists and the controller was stopped; engine.Stop during XRD deletion => no instance exists; XRD finalizer removal => CRD gone or not ours; at the end nothing terminating is left with a stopped controller. Part B (package revisions): the real revision reconciler's deletion branch with the real PackageDependencyManager over a Lock in sim - every call index x 6 outcomes for an Active and an Inactive deleted revision plus seeded schedules of two revisions deleted concurrently; monitor: the revision finalizer is removed only when the Lock no longer lists the revision. distinct = (scenario, schedule); non-trivial = >=2 different reconcilers made effective writes during the scheduled phase."
 	c.Rule += " Part E: a bound claim (Background / Foreground, both syncers) is deleted; every API call of the claim controller's next reconcile fails once with each of 6 non-crash outcomes (incl. kind not served, 503), then fault-free settling; same monitors. Part F: XRD deletion while a claim is paused. Part C: XRD teardown against the REAL ControllerEngine over fake informers whose RemoveEventHandler fails once or twice; Stop marks are ground truth (context cancelled, no handler registered). Part D: the real usage reconciler on a composed Usage (composite label, spec.by) with user deletions of the Usage and the using resource (fore/background), a provider finalizer, a lingering dependent and single GC steps in fixed and seeded orders; monitor: the usage controller removes the Usage finalizer only when the using resource is gone."
 	c.Rule += " " + "Lock entries in the forms older versions wrote (type only, apiVersion+kind, Function as v1beta1)."
+	c.Rule += " " + "(1b) the deleted revision's controller reads the Lock through a cache that is behind another writer for 1-3 reconciles."
 	c.Assumptions = []string{"a stopped controller reconciles nothing; a running one reconciles every instance when scheduled", "part C: fake informers stand in for client-go shared informers (handler registrations, RemoveEventHandler errors); part D: the Usage is composed by label only, no XR reconciler runs"}
 	c.Floor = 100
 	n := c.N(400, 8000)
